@@ -225,10 +225,22 @@ fn verify_sublayouts(
     chain_link_dict: HashMap<String, HashMap<KeyId, Metablock>>,
     link_dir: &str,
 ) -> Result<HashMap<String, HashMap<KeyId, LinkMetadata>>> {
+    let mut chain_link_dict = chain_link_dict;
     let mut steps_link_metadata = HashMap::new();
-    for (step_name, key_link_dict) in chain_link_dict {
+    // verifying a sublayout runs its inspections in the working directory:
+    // go through the steps as the layout lists them, and through the
+    // functionaries of a step by key id, not in the maps' arbitrary order
+    for step in &layout.steps {
+        let (step_name, key_link_dict) =
+            match chain_link_dict.remove_entry(&step.name) {
+                Some(entry) => entry,
+                None => continue,
+            };
         let mut link_per_step = HashMap::new();
-        for (keyid, link) in &key_link_dict {
+        let mut keyids: Vec<&KeyId> = key_link_dict.keys().collect();
+        keyids.sort();
+        for keyid in keyids {
+            let link = &key_link_dict[keyid];
             let link_metadata = match &link.metadata {
                 MetadataWrapper::Layout(_) => {
                     // If it's a layout, go ahead.
